@@ -251,6 +251,42 @@ factor `r ≥ 1`: node `j ≥ 1` hangs below node `(j-1) / r`, in this order. -/
 theorem C12_tree (n r : Nat) (hr : 1 ≤ r) : treeEdges n r = specTreeEdges n r :=
   Proofs.Seq.treeEdges_spec n r hr
 
+/-- **C12_tree_shape** — what "as the macro tree shape dictates" means for the edges the queue loop builds,
+for every size and branching factor `r ≥ 1`: there are `n - 1` edges; the children are the nodes
+`1 … n-1`, each exactly once and in order (every node but the root has exactly one parent); a parent
+always has a smaller key than its child (so the graph is a tree rooted at 0); and no node has more than `r` children. -/
+theorem C12_tree_shape (n r : Nat) (hr : 1 ≤ r) :
+    (treeEdges n r).length = n - 1 ∧
+    (treeEdges n r).map (·.2) = (List.range (n - 1)).map (· + 1) ∧
+    (∀ e ∈ treeEdges n r, e.1 < e.2 ∧ e.2 < n) ∧
+    ∀ p, ((treeEdges n r).filter (fun e => e.1 == p)).length ≤ r := by
+  rw [C12_tree n r hr]
+  unfold specTreeEdges
+  refine ⟨by simp, by simp [List.map_map, Function.comp_def], ?_, ?_⟩
+  · intro e he
+    simp only [List.mem_map, List.mem_range] at he
+    obtain ⟨j, hj, rfl⟩ := he
+    have : j / r ≤ j := Nat.div_le_self j r
+    exact ⟨by simp only []; omega, by simp only []; omega⟩
+  · intro p
+    rw [List.filter_map, List.length_map]
+    have hnd : ((List.range (n - 1)).filter ((fun e : Nat × Nat => e.1 == p) ∘ fun j => (j / r, j + 1))).Nodup :=
+      (List.nodup_range).filter _
+    have hsub : ((List.range (n - 1)).filter ((fun e : Nat × Nat => e.1 == p) ∘ fun j => (j / r, j + 1))) ⊆
+        List.range' (p * r) r := by
+      intro j hj
+      simp only [List.mem_filter, List.mem_range, Function.comp_apply, beq_iff_eq] at hj
+      obtain ⟨_, hjp⟩ := hj
+      rw [List.mem_range']
+      have h1 := Nat.div_add_mod j r
+      have h2 := Nat.mod_lt j (show 0 < r by omega)
+      refine ⟨j % r, h2, ?_⟩
+      rw [← hjp, Nat.mul_comm]; omega
+    have := hnd.length_le_of_subset hsub
+    simpa using this
+
+example : ((treeEdges 7 2).filter (fun e => e.1 == 1)).length = 2 ∧ (treeEdges 7 2).map (·.2) = [1, 2, 3, 4, 5, 6] := by decide
+
 /-- branching factor 0: a single node without edges -/
 theorem C12_tree_zero (n levels : Nat) : treeEdges n 0 = [] ∧ treeSize 0 levels ≤ 1 :=
   ⟨Proofs.Seq.treeEdges_zero n, Proofs.Seq.treeSize_zero_le levels⟩
